@@ -3,6 +3,7 @@ import Csproto.Bridge.Facts
 import Csproto.Bridge.WireFuncs
 import Csproto.Bridge.WireFuncs2
 import Csproto.Bridge.DecoderFuncs
+import Csproto.Bridge.SkipFuncs
 import Csproto.Bridge.EncoderFuncs
 /- axiom audit for C02 -/
 open Csproto
@@ -60,3 +61,10 @@ open Csproto
 #print axioms Csproto.Bridge.EncoderFuncs.EncodeSInt64_refines
 #print axioms Csproto.Bridge.EncoderFuncs.EncodeSInt32_refines
 #print axioms Csproto.Bridge.EncoderFuncs.writeAt_writeAt
+
+-- DecodeBytes and Skip of the current decoder.go refine Dec.step: Bridge/DecoderFuncs.lean, Bridge/SkipFuncs.lean
+#print axioms Csproto.Bridge.DecoderFuncs.DecodeBytes_refines
+#print axioms Csproto.Bridge.SkipFuncs.Skip_refines
+#print axioms Csproto.Bridge.SkipFuncs.prefix_eval
+#print axioms Csproto.Bridge.SkipFuncs.check_eval
+#print axioms Csproto.Bridge.SkipFuncs.len_eval
